@@ -29,7 +29,7 @@ static const char* OPN[] = {"set", "add", "sub", "mul"};
 template<typename I> struct ityn;
 template<> struct ityn<int> { static const char* n() { return "i32"; } };
 template<> struct ityn<long> { static const char* n() { return "i64"; } };
-template<> struct ityn<long long> { static const char* n() { return "i64"; } };
+template<> struct ityn<long long> { static const char* n() { return "ll"; } };
 template<> struct ityn<unsigned long> { static const char* n() { return "u64"; } };
 template<> struct ityn<unsigned> { static const char* n() { return "u32"; } };
 template<> struct ityn<short> { static const char* n() { return "i16"; } };
@@ -340,7 +340,7 @@ static inline void to2d(const char* i0s, const char* i1s) {
     using namespace Fastor;
     std::vector<long> i0 = parse(i0s), i1 = parse(i1s);
     Tensor<Int0,M> it0; fill_idx(it0, i0); Tensor<Int1,N> it1; fill_idx(it1, i1);
-    std::printf("rview2 cfg=%s sz=%d r=%zu c=%zu m=%zu n=%zu i0=%s i1=%s ity=%s/%s dyn=%d cst=%d", CFGNAME, (int)sizeof(T), R, C, M, N, join(i0).c_str(), join(i1).c_str(),
+    std::printf("rview2 cfg=%s sz=%d vea=%d r=%zu c=%zu m=%zu n=%zu i0=%s i1=%s ity=%s/%s dyn=%d cst=%d", CFGNAME, (int)sizeof(T), RV_VEA, R, C, M, N, join(i0).c_str(), join(i1).c_str(),
                 ityn<Int0>::n(), ityn<Int1>::n(), DYN, CST);
     std::fflush(stdout);
     Case<T>::begin();
@@ -364,7 +364,7 @@ static inline void to2d(const char* i0s, const char* i1s) {
         e2s = dg(e2s, vw.template eval_s<T>(i, k));
         if (k + V <= N) { auto vec = vw.template eval<T>(i, k); for (size_t l = 0; l < V; ++l) e2v = dg(e2v, vec[l]); }
     }
-    std::printf(" | V=%d VAL=%s NW=%ld E2S=%s E2V=%s OOB=%ld ORACLE=%s", (int)V, hex16(val_digest(B->data(), (M + 1) * (N + 2))).c_str(), s.nw,
+    std::printf(" | V=%d VAL=%s WSEQ=%s NW=%ld E2S=%s E2V=%s OOB=%ld ORACLE=%s", (int)V, hex16(val_digest(B->data(), (M + 1) * (N + 2))).c_str(), hex16(s.wseq).c_str(), s.nw,
                 hex16(e2s).c_str(), hex16(e2v).c_str(), s.oob, ok ? "ok" : "FAIL");
     if (!ok) std::printf(" bad=%ld", bad);
     std::printf("\n");
@@ -446,6 +446,101 @@ static inline void filt3_seeded(int count, unsigned seed) {
         std::string m(D0 * D1 * D2, '0');
         for (auto& ch : m) { st = mix64(st); ch = (q == 0 || (st >> 13 & 3)) ? '1' : '0'; }
         filt3<T,D0,D1,D2,DYN>(m.c_str());
+    }
+}
+// ---------------------------------------------------------------------------------------------
+// joint cases with the range views (C04 / C05).  Window 0 = X (result), 1 = A (parent of the index / mask view),
+// 2 = S (parent of the range view).
+static inline void tail_line(int V, const void* od_, size_t n, int sz, const TraceSummary& s, bool ok, long bad) {
+    uint64_t val = sz == 4 ? val_digest((const Sym4*)od_, n) : val_digest((const Sym8*)od_, n);
+    std::printf(" | V=%d VAL=%s WSEQ=%s NW=%ld", V, hex16(val).c_str(), hex16(s.wseq).c_str(), s.nw);
+    for (int w = 1; w <= 2; ++w) std::printf(" RD%d=%s", w, hex16(s.reads.count(w) ? set_digest(s.reads.at(w)) : 0).c_str());
+    std::printf(" OOB=%ld ORACLE=%s", s.oob, ok ? "ok" : "FAIL");
+    if (!ok) std::printf(" bad=%ld", bad);
+    if (g_verbose) std::printf(" W=[%s]", s.wlist.c_str());
+    std::printf("\n");
+}
+// Tensor<T,M,N> X = A(it0,it1) + S(r0, r1): a 2-D expression with a range view is evaluated by the two-index constructor loop
+template<typename T, typename Int0, typename Int1, size_t R, size_t C, size_t M, size_t N, size_t SR, size_t SC, int F0, int S0, int F1, int S1, int DYN>
+static inline void ctor2(const char* i0s, const char* i1s) {
+    using namespace Fastor;
+    std::vector<long> i0 = parse(i0s), i1 = parse(i1s);
+    Tensor<Int0,M> it0; fill_idx(it0, i0); Tensor<Int1,N> it1; fill_idx(it1, i1);
+    std::printf("rctor2 cfg=%s sz=%d r=%zu c=%zu m=%zu n=%zu i0=%s i1=%s ity=%s/%s sr=%zu sc=%zu f0=%d s0=%d f1=%d s1=%d dyn=%d", CFGNAME, (int)sizeof(T), R, C, M, N,
+                join(i0).c_str(), join(i1).c_str(), ityn<Int0>::n(), ityn<Int1>::n(), SR, SC, F0, S0, F1, S1, DYN);
+    std::fflush(stdout);
+    Case<T>::begin();
+    using XT = Tensor<T,M,N>; using PT = Tensor<T,R,C>; using ST = Tensor<T,SR,SC>;
+    PT* A = arena_tensor<PT>(1); ST* S = arena_tensor<ST>(2);
+    void* slot = arena_result_slot<XT>(0);
+    constexpr int L0 = F0 + ((int)M - 1) * S0 + 1, L1 = F1 + ((int)N - 1) * S1 + 1;
+    vf::trace.clear(); vf::trace.on = true;
+    XT* X = DYN ? new (slot) XT((*A)(it0, it1) + (*S)(seq(F0, L0, S0), seq(F1, L1, S1)))
+                : new (slot) XT((*A)(it0, it1) + (*S)(fseq<F0,L0,S0>(), fseq<F1,L1,S1>()));
+    vf::trace.on = false;
+    auto s = summarise(0, g_verbose);
+    bool ok = true; long bad = -1;
+    for (size_t i = 0; i < M && ok; ++i) for (size_t k = 0; k < N && ok; ++k)
+        if (padd(tokp(1, i0[i] * (long)C + i1[k]), tokp(2, (F0 + (long)i * S0) * (long)SC + F1 + (long)k * S1)) != pool.v[X->data()[i * N + k].h]) { ok = false; bad = i * N + k; }
+    tail_line((int)PT::simd_vector_type::Size, X->data(), M * N, sizeof(T), s, ok, bad);
+}
+// A(it) op= S(range) on 1-D tensors
+template<typename T, typename Int, size_t N, size_t M, size_t SN, int F, int St, int OP, int DYN>
+static inline void vsrc(const char* i0s) {
+    using namespace Fastor;
+    std::vector<long> i0 = parse(i0s);
+    Tensor<Int,M> it; fill_idx(it, i0);
+    std::printf("rvsrc cfg=%s sz=%d vea=%d c=%zu n=%zu i0=%s ity=%s sn=%zu f=%d s=%d op=%s dyn=%d", CFGNAME, (int)sizeof(T), RV_VEA, N, M, join(i0).c_str(), ityn<Int>::n(), SN, F, St, OPN[OP], DYN);
+    std::fflush(stdout);
+    Case<T>::begin();
+    using PT = Tensor<T,N>; using ST = Tensor<T,SN>;
+    PT* A = arena_tensor<PT>(1); ST* S = arena_tensor<ST>(2);
+    constexpr int L = F + ((int)M - 1) * St + 1;
+    vf::trace.clear(); vf::trace.on = true;
+    if (DYN) asg(tag<OP>(), (*A)(it), (*S)(seq(F, L, St))); else asg(tag<OP>(), (*A)(it), (*S)(fseq<F,L,St>()));
+    vf::trace.on = false;
+    auto s = summarise(1, g_verbose);
+    bool ok = true; long bad = -1;
+    if (dupfree(i0)) {
+        std::vector<long> who(N, -1); for (size_t j = 0; j < M; ++j) who[i0[j]] = j;
+        for (size_t p = 0; p < N && ok; ++p) {
+            Poly want = who[p] < 0 ? tokp(1, p) : apply(OP, tokp(1, p), tokp(2, F + who[p] * (long)St));
+            if (want != pool.v[A->data()[p].h]) { ok = false; bad = p; }
+        }
+    }
+    for (size_t q = 0; q < SN && ok; ++q) if (pool.v[S->data()[q].h] != tokp(2, q)) { ok = false; bad = -2; }
+    tail_line((int)PT::simd_vector_type::Size, A->data(), N, sizeof(T), s, ok, bad);
+}
+// A(mask) op= S(range) on 1-D tensors
+template<typename T, size_t N, size_t SN, int F, int St, int OP, int DYN>
+static inline void fsrc(const char* mask) {
+    using namespace Fastor;
+    std::printf("fvsrc cfg=%s sz=%d n=%zu mask=%s sn=%zu f=%d s=%d op=%s dyn=%d", CFGNAME, (int)sizeof(T), N, mask, SN, F, St, OPN[OP], DYN);
+    std::fflush(stdout);
+    Case<T>::begin();
+    using PT = Tensor<T,N>; using ST = Tensor<T,SN>;
+    PT* A = arena_tensor<PT>(1); ST* S = arena_tensor<ST>(2);
+    Tensor<bool,N> fl; for (size_t p = 0; p < N; ++p) fl.data()[p] = mask[p] == '1';
+    constexpr int L = F + ((int)N - 1) * St + 1;
+    vf::trace.clear(); vf::trace.on = true;
+    if (DYN) asg(tag<OP>(), (*A)(fl), (*S)(seq(F, L, St))); else asg(tag<OP>(), (*A)(fl), (*S)(fseq<F,L,St>()));
+    vf::trace.on = false;
+    auto s = summarise(1, g_verbose);
+    bool ok = true; long bad = -1;
+    for (size_t p = 0; p < N && ok; ++p) {
+        Poly want = mask[p] == '1' ? apply(OP, tokp(1, p), tokp(2, F + (long)p * St)) : tokp(1, p);
+        if (want != pool.v[A->data()[p].h]) { ok = false; bad = p; }
+    }
+    for (size_t q = 0; q < SN && ok; ++q) if (pool.v[S->data()[q].h] != tokp(2, q)) { ok = false; bad = -2; }
+    tail_line((int)PT::simd_vector_type::Size, A->data(), N, sizeof(T), s, ok, bad);
+}
+template<typename T, size_t N, size_t SN, int F, int St, int OP, int DYN>
+static inline void fsrc_seeded(int count, unsigned seed) {
+    uint64_t st = seed * 2654435761u + 7;
+    for (int q = 0; q < count; ++q) {
+        std::string m(N, '0');
+        for (auto& ch : m) { st = mix64(st); ch = (q != 1 && (q == 0 || (st >> 13 & 1))) ? '1' : '0'; }
+        fsrc<T,N,SN,F,St,OP,DYN>(m.c_str());
     }
 }
 } // namespace rv
